@@ -28,7 +28,7 @@ const rule = "a case is one logger life in a fresh process: 1-32 producer gorout
 	"initial levels from the -log/-plog flags, some phases with level changes racing with the producers), 96 call sites (directory x plain/f/tracer-method x severity), " +
 	"unique lines, runs of identical lines, A-B-A repeats, texts shared by goroutines, equal texts from different call sites, context tracers (0-6 lines, optionally collected by 3 goroutines); " +
 	"writer free-running or externally triggered (periods 0-20 ms, or withheld until > 1024 lines are queued, or never), adapter delayed or held inside Write until all producers are parked; " +
-	"Shutdown after all producers finished or after a PRNG-chosen number of returned calls. Families: free, free-hold, sched, sched-withheld, small, squeeze (GOMAXPROCS 1-2 + busy goroutines during Shutdown). " +
+	"Shutdown after all producers finished or after a PRNG-chosen number of returned calls. Families: free, free-hold, sched, sched-withheld, small, squeeze (GOMAXPROCS 1-2 + busy goroutines during Shutdown), twin (plain lines through a nil tracer and tracer submissions with the same call site and main text logged back to back, 1-3 goroutines, writer triggered only after everything is queued). " +
 	"distinct = distinct scenario signatures (family, build, producers, lines, levels per phase, shutdown moment); non-trivial = at least 10 log calls and at least one line delivered"
 
 // functions whose races are about the buffer / wake-up protocol of the property
@@ -115,6 +115,18 @@ func main() {
 		// which that matters needs the writer to lose the CPU inside a window of about
 		// 100 ns per drained line. Many cheap squeeze cases (short, mostly waiting)
 		// buy reach there that a few long ones cannot.
+		// Plain lines and tracer submissions with equal site and text, queued back to
+		// back and taken by the writer in one batch (family twin; small cases).
+		if only == "" || only == "twin" {
+			for i := 0; i < cfg.N(64, 600); i++ {
+				add(genScenario(cfg, 200000+i, "plain", "twin"), fmt.Sprintf("plain-tw%04d", i))
+			}
+			if cfg.BinRace != "" {
+				for i := 0; i < cfg.N(16, 150); i++ {
+					add(genScenario(cfg, 200000+i, "race", "twin"), fmt.Sprintf("race-tw%04d", i))
+				}
+			}
+		}
 		if only == "" || only == "squeeze" {
 			for i := 0; i < nPlain*2; i++ {
 				add(genScenario(cfg, 100000+i, "plain", "squeeze"), fmt.Sprintf("plain-sq%04d", i))
@@ -183,6 +195,7 @@ func main() {
 		rep.Floor(rep.Counter("merged_entries") >= 20, "merged_entries=%d", rep.Counter("merged_entries"))
 		rep.Floor(rep.Counter("submissions_checked") >= 20, "submissions_checked=%d", rep.Counter("submissions_checked"))
 		rep.Floor(rep.Counter("cases_shutdown_with_lines_pending") >= 5, "cases_shutdown_with_lines_pending=%d", rep.Counter("cases_shutdown_with_lines_pending"))
+		rep.Floor(rep.Counter("twin_plain_and_submission_arrived_adjacent") >= 100, "twin_plain_and_submission_arrived_adjacent=%d", rep.Counter("twin_plain_and_submission_arrived_adjacent"))
 		rep.Floor(rep.Counter("cases_shutdown_mid") >= 5, "cases_shutdown_mid=%d", rep.Counter("cases_shutdown_mid"))
 		rep.Floor(rep.Counter("lines_below_level") >= 1000 && rep.Counter("lines_must") >= 10000, "lines: must=%d below=%d", rep.Counter("lines_must"), rep.Counter("lines_below_level"))
 	}
